@@ -30,7 +30,7 @@ PROBES = ["pred_chunk_lacks_fold", "one_row_last_chunk", "spectrum_split_across_
           "switch_in_get_rows", "switch_in_save_chunks", "parquet", "workers>=8", "dedup_off", "rollup_off",
           "multi_file", "order_sensitive_learner", "sklearn_learner", "merge_chunk_small", "protein_level",
           "pep_files_compared_strictly", "pep_files_checked_for_shape_only", "feature_with_missing_values", "ensemble_mode", "proba_only_learner",
-          "spectrum_key_with_missing_values", "parquet_dictionary_typed_strings", "parquet_written_from_sliced_frame", "text_feature_starts_with_whole_numbers"]
+          "spectrum_key_with_missing_values", "parquet_dictionary_typed_strings", "parquet_written_from_sliced_frame", "text_feature_starts_with_whole_numbers", "train_set_blocks>=2"]
 RULE = (
     "Each scenario = one seeded tie-free data set + configuration (learner, folds, seeds, rollup/decoy/dedup "
     "switches) executed as reference (text, knobs > file, 1 worker, no threads) and as perturbed execution "
@@ -102,6 +102,9 @@ def make_scenario(seed):
             kn[name] = datagen.knob_value(rng, n_, extra=(max(1, n_ // folds - 1), n_ // folds + 1, folds, 2 * folds))
     if rng.random() < 0.5:
         kn["CHUNK_SIZE_COLUMNS_FOR_DROP_COLUMNS"] = rng.randint(1, 25)
+    r_blk = random.Random(f"blk|{seed}")
+    if r_blk.random() < 0.4:
+        kn["TRAIN_SETS_BLOCK_SIZE"] = datagen.knob_value(r_blk, r_blk.choice(sizes), extra=(folds, 7, 50))
     fmt = rng.choice(["pin", "parquet"])
     pert = {
         "format": fmt,
@@ -304,8 +307,14 @@ def run_scenario(scn, workdir):
         datagen.write_fasta(fa, P.fasta_for_tables(tables, scn["fasta_seed"]))
         cfg["fasta_path"] = fa
         cfg["fasta_kw"] = {"missed_cleavages": 0}
+    ref_knobs = world.big_knobs()
+    if "TRAIN_SETS_BLOCK_SIZE" in (pert.get("knobs") or {}):
+        # not one of the streaming chunk sizes the statement quantifies over: on the shipped tree it is a literal, and the
+        # order of the training rows legitimately depends on it (set iteration order inside a block).  It is varied from
+        # scenario to scenario so that the block loop runs at all, but is the same in both executions of a scenario.
+        ref_knobs["TRAIN_SETS_BLOCK_SIZE"] = pert["knobs"]["TRAIN_SETS_BLOCK_SIZE"]
     ref = P.run_pipeline(tables, cfg, workdir, "ref", fmt="pin", sched_desc={"mode": "fifo"},
-                         knobs=world.big_knobs(), glob_seed=None)
+                         knobs=ref_knobs, glob_seed=None)
     cfg2 = dict(cfg)
     cfg2["max_workers"] = pert["max_workers"]
     got = P.run_pipeline(tables, cfg2, workdir, "pert", fmt=pert["format"], row_group=pert.get("row_group"),
@@ -341,6 +350,7 @@ def run_scenario(scn, workdir):
         "parquet_written_from_sliced_frame": int(bool(scn["pert"].get("index_start"))),
         "text_feature_starts_with_whole_numbers": int(bool(scn["data"].get("whole_head"))),
         "ensemble_mode": int(bool(cfg.get("ensemble"))),
+        "train_set_blocks>=2": int(kn.get("TRAIN_SETS_BLOCK_SIZE", 10**9) < nmax),
     }
     rg = pert.get("row_group")
     if pert["format"] == "parquet" and rg:
